@@ -187,6 +187,11 @@ func c08Sync(p vbase.Params, r *vbase.Result) {
 				switch {
 				case kind <= 5: // genuine
 					valid = true
+					if c.W.LibraryDefect(tm.ViewSignature, func(hotstuff.ID) []byte { return tv.ToBytes() }) ||
+						(agg && c.W.LibraryDefect(tm.MsgSignature, func(hotstuff.ID) []byte { return tm.ToBytes() })) {
+						valid = false // the subject cannot verify it (pairing library defect, vk/blsref.go)
+						r.Obs("bls_library_defect_timeouts", 1)
+					}
 				case kind == 6: // view signature of another replica
 					other := hotstuff.ID(2 + (int(sender)-2+1)%(nn-1))
 					o := c.honestTimeout(other, tv, si, agg)
@@ -248,7 +253,9 @@ func c08Sync(p vbase.Params, r *vbase.Result) {
 				if tc, ok := nv.SyncInfo.TC(); ok && tc.View() > 0 {
 					r.Obs("timeout_certs_emitted", 1)
 					verd, signers := c.W.TrueTC(tc)
-					if err := c.W.M(2).Auth.VerifyTimeoutCert(tc); err != nil || verd == vk.MustReject {
+					if err := c.W.M(2).Auth.VerifyTimeoutCert(tc); err != nil && verd != vk.MustReject && c.W.LibraryDefect(tc.Signature(), func(hotstuff.ID) []byte { return tc.View().ToBytes() }) {
+						r.Obs("bls_library_defect_cases_skipped", 1)
+					} else if err != nil || verd == vk.MustReject {
 						fail("emitted-tc-invalid", "the timeout certificate for view %d sent by the subject does not verify at replica 2 (%v; ground truth: %s, real signers %v)", tc.View(), err, verd, vk.SortedIDs(signers))
 						bad = true
 					}
